@@ -17,7 +17,7 @@ import (
 func init() {
 	register(&Check{
 		ID:   "C11",
-		Rule: "every string up to the stated length over {* _ a space .} and over {* _ a space . U+201C NBSP e-acute ** a-with-underscores}; strings that begin or end with a space, are empty, or that the reference recognisers classify as a thematic break or a list item are skipped and counted; the rest are one-paragraph documents whose rendered HTML must equal the reference procedure's; non-trivial = the reference result contains at least one <em> or <strong>",
+		Rule: "every string up to the stated length over {* _ a space .}, over {* _ a space . U+201C NBSP e-acute ** a-with-underscores}, and deeper over the sub-alphabets {* _ a space} and {* _ a}; strings that begin or end with a space, are empty, or that the reference recognisers classify as a thematic break or a list item are skipped and counted; the rest are one-paragraph documents whose rendered HTML must equal the reference procedure's; non-trivial = the reference result contains at least one <em> or <strong>",
 		Assumptions: []string{
 			"reference: spec 6.2 flanking rules + appendix 'process emphasis' without the openers_bottom optimisation, self-tested on the spec's emphasis examples that use no other syntax",
 			"Unicode whitespace/punctuation per spec 2.1 over Go's unicode tables",
@@ -26,6 +26,8 @@ func init() {
 		Run: func(c *Ctx) {
 			c.Inputs(spaces.Emph5, c.Pick(10, 12), c11Driver)
 			c.Inputs(spaces.XEmph, c.Pick(7, 9), c11Driver)
+			c.Inputs(spaces.Emph4, c.Pick(11, 13), c11Driver)
+			c.Inputs(spaces.Emph3, c.Pick(13, 16), c11Driver)
 		},
 	})
 }
